@@ -107,10 +107,19 @@ def run(ctx):
                     inner = rng.choice(["%s", "a%sb", "%s" + xinclude]) % ref if ref else rng.choice(["v", xinclude])
                     # a third of the documents are larger than 64 KiB (size must not change how they are parsed)
                     pad = ("<!--" + "p" * 70000 + "-->") if ((reps > 1 and rep == reps - 1) or rng.random() < 0.4) else ""
-                    reply = ('<?xml version="1.0"?>%s<e:Envelope xmlns:e="%s">%s<e:Body><fResponse xmlns="%s"><r k="%s">%s'
+                    # the XML declaration in every legal spelling: what it says must not change what is resolved
+                    prolog = rng.choice(['<?xml version="1.0"?>', '<?xml version="1.0"?>', "",
+                                         '<?xml version="1.0" encoding="UTF-8" standalone="no"?>',
+                                         "<?xml version='1.0' standalone='no'?>",
+                                         '<?xml version="1.0" standalone="yes"?>',
+                                         '<?xml version="1.0" encoding="utf-8"?>'])
+                    reply = ('%s%s<e:Envelope xmlns:e="%s">%s<e:Body><fResponse xmlns="%s"><r k="%s">%s'
                              '</r></fResponse></e:Body></e:Envelope>'
-                             % (doctype.replace(" r ", " e:Envelope "), xmlread.ENV11, pad, wsdlkit.TNS, attref,
+                             % (prolog, doctype.replace(" r ", " e:Envelope "), xmlread.ENV11, pad, wsdlkit.TNS, attref,
                                 inner)).encode()
+                    fault = ('%s%s<e:Envelope xmlns:e="%s">%s<e:Body><e:Fault><faultcode>e:Server</faultcode>'
+                             '<faultstring>%s</faultstring></e:Fault></e:Body></e:Envelope>'
+                             % (prolog, doctype.replace(" r ", " e:Envelope "), xmlread.ENV11, pad, inner)).encode()
                     entry_points = []
                     c = wsdlkit.client(base_wsdl.encode())
 
@@ -122,6 +131,27 @@ def run(ctx):
                         c2 = wsdlkit.client(base_wsdl.encode(), transport=tr)
                         return c2.service.f("x")
 
+                    def ep_error_path(reply=reply, fault=fault):
+                        # replies that arrive as HTTP errors (TransportError with a body) and injected error statuses
+                        import io
+                        out = []
+                        for body, status in ((fault, 500), (reply, 500), (reply, 404), (fault, 200)):
+                            for how in ("transport", "inject"):
+                                if how == "transport":
+                                    rv = suds.transport.TransportError("error", status, io.BytesIO(body)) if status != 200 \
+                                        else suds.transport.Reply(200, {}, body)
+                                    c4 = wsdlkit.client(base_wsdl.encode(), transport=wsdlkit.RecordingTransport(reply=rv),
+                                                        faults=rng.random() < 0.5)
+                                    kw = {}
+                                else:
+                                    c4 = wsdlkit.client(base_wsdl.encode(), faults=rng.random() < 0.5)
+                                    kw = {"__inject": {"reply": body, "status": status, "description": "d"}}
+                                try:
+                                    out.append(str(c4.service.f("x", **kw)))
+                                except Exception as e:
+                                    out.append("%s %s %s" % (type(e).__name__, e, getattr(e, "fault", "")))
+                        return " ".join(out)
+
                     def ep_reqctx(reply=reply):
                         c3 = wsdlkit.client(base_wsdl.encode(), nosend=True)
                         return c3.service.f("x").process_reply(reply)
@@ -130,8 +160,7 @@ def run(ctx):
                         return Parser().parse(string=reply).root().plain()
 
                     wsdl_doc = base_wsdl.replace('<?xml version="1.0" encoding="UTF-8"?>',
-                                                 '<?xml version="1.0" encoding="UTF-8"?>' +
-                                                 doctype.replace(" r ", " wsdl:definitions "))
+                                                 prolog + doctype.replace(" r ", " wsdl:definitions "))
                     if ref:
                         wsdl_doc = wsdl_doc.replace('<wsdl:types>', '<wsdl:documentation>%s</wsdl:documentation><wsdl:types>' % ref)
                     wsdl_doc = wsdl_doc.replace('<wsdl:types>', pad + '<wsdl:types>', 1)
@@ -140,16 +169,40 @@ def run(ctx):
                         cl = wsdlkit.client(wsdl_doc.encode())
                         return str(cl) + cl.wsdl.root.plain()
 
-                    inc = ('<?xml version="1.0"?>%s<xsd:schema xmlns:xsd="http://www.w3.org/2001/XMLSchema" '
+                    inc = ('%s%s<xsd:schema xmlns:xsd="http://www.w3.org/2001/XMLSchema" '
                            'targetNamespace="urn:inc">%s<xsd:annotation><xsd:documentation>%s</xsd:documentation>'
                            '</xsd:annotation><xsd:element name="e" type="xsd:string"/></xsd:schema>'
-                           % (doctype.replace(" r ", " xsd:schema "), pad, ref)).encode()
+                           % (prolog, doctype.replace(" r ", " xsd:schema "), pad, ref)).encode()
                     w_imp = wsdlkit.wsdl_doc('<xsd:import namespace="urn:inc" schemaLocation="suds://inc.xsd"/>' + schema,
                                              "f", "fResponse")
 
                     def ep_import(inc=inc, w_imp=w_imp):
                         cl = wsdlkit.client(w_imp, extra_docs={"inc.xsd": inc})
                         return str(cl)
+
+                    def ep_import_url(inc=inc, schema=schema):
+                        # the same imported document served (by the configured transport) under other locations,
+                        # well-known ones included: where a document comes from does not change how it is parsed
+                        import io
+                        out = []
+                        for loc in ("http://www.w3.org/2001/xml.xsd", "http://www.w3.org/2001/XMLSchema.xsd",
+                                    "https://schemas.example.invalid/inc.xsd", "http://localhost.invalid/a/b/inc.xsd"):
+                            main = wsdlkit.wsdl_doc('<xsd:import namespace="urn:inc" schemaLocation="%s"/>' % loc + schema,
+                                                    "f", "fResponse")
+
+                            class T(suds.transport.Transport):
+                                def open(self, request, main=main):
+                                    return io.BytesIO(main if request.url.endswith("main.wsdl") else inc)
+
+                                def send(self, request):
+                                    raise AssertionError("no send")
+                            try:
+                                cl = suds.client.Client("http://fetch.invalid/main.wsdl", transport=T(), cache=None,
+                                                        documentStore=None)
+                                out.append(str(cl) + str(cl.wsdl.schema))
+                            except Exception as e:
+                                out.append("%s %s" % (type(e).__name__, e))
+                        return " ".join(out)
 
                     cdir = os.path.join(work, "cache-%s-%d" % (abs(hash(name)) % 10**6, rep))
 
@@ -203,7 +256,8 @@ def run(ctx):
                         return " ".join(out)
                     extra = [("transport-fetch", ep_transport_fetch), ("str-reply", ep_str_reply)] if rep == 0 and \
                         name in ("none", "internal-only") else []
-                    entry_points = extra + [("inject", ep_inject), ("transport", ep_transport), ("reqctx", ep_reqctx),
+                    entry_points = extra + [("error-path", ep_error_path), ("import-url", ep_import_url),
+                                    ("inject", ep_inject), ("transport", ep_transport), ("reqctx", ep_reqctx),
                                     ("parser", ep_parser), ("wsdl", ep_wsdl), ("import", ep_import), ("cache", ep_cache)]
                     for epname, fn in entry_points:
                         meta = {"doctype": name, "entry": epname, "ref": ref, "rep": rep}
